@@ -29,6 +29,7 @@ import (
 	"math/rand"
 	"path/filepath"
 	"sort"
+	"time"
 
 	logger "github.com/multiversx/mx-chain-logger-go"
 	"github.com/multiversx/mx-chain-storage-go/common"
@@ -708,6 +709,34 @@ func (comp) Run(h *core.History, scratch string) *core.Result {
 				sortPairs(want)
 				if !samePairs(got, want) {
 					res.Failf(prop, i, "RangeKeys visited %v, the acknowledged writes are %v", pairToks(got), pairToks(want))
+				}
+			}
+			// a handler that calls back into the unit for every pair it is shown (cross-checking it with Get, as a pruning or
+			// re-indexing pass does): the iteration and the inner calls must both come back, with the pair's own value
+			{
+				e.stub.arm(nil)
+				finished := make(chan string, 1)
+				go func() {
+					bad := ""
+					e.u.RangeKeys(func(k, v []byte) bool {
+						kk, vv := append([]byte{}, k...), append([]byte{}, v...)
+						// (the values are compared over memorydb only: a LevelDB persister shows its FLUSHED pairs, Get the latest acknowledged one)
+						if got, err := e.u.Get(kk); pk == 0 && (err != nil || !bytes.Equal(got, vv)) {
+							bad = fmt.Sprintf("inside the RangeKeys handler Get(%x) = (%x, %v), the handler was shown the value %x", kk, got, err, vv)
+						}
+						return true
+					})
+					finished <- bad
+				}()
+				select {
+				case bad := <-finished:
+					if bad != "" {
+						res.Failf(prop, i, "%s", bad)
+					}
+				case <-time.After(4 * time.Second):
+					res.Failf(prop, i, "RangeKeys with a handler that calls Get on the same unit did not return within 4 s (the handler runs while the unit is locked)")
+					res.AddObs(obs...)
+					return res
 				}
 			}
 			res.Hit("range-keys")
